@@ -5,13 +5,13 @@ import glob, json, os, re, subprocess, sys
 base = json.load(open("/root/.vp/BASELINE.json"))
 head = subprocess.run(["git", "-C", "/repo", "rev-parse", "HEAD"], capture_output=True, text=True).stdout.strip()
 only = sys.argv[1:]
-for d in sorted(glob.glob("/tmp/seeded_out/C*/m*")):
+for d in sorted(glob.glob(os.environ.get("SEED_ROOT", "/tmp/seeded_out") + "/C*/m*")):
     prop = os.path.basename(os.path.dirname(d))
     if only and prop not in only:
         continue
     if not os.path.exists(d + "/patch.diff"):
         continue
-    wt = "/tmp/wt/" + prop
+    wt = os.environ.get("WT_ROOT", "/tmp/wt") + "/" + prop
     if not os.path.isdir(wt):
         subprocess.run(["git", "-C", "/repo", "worktree", "add", "-q", wt, "HEAD"], check=True)
     subprocess.run(["git", "-C", wt, "checkout", "-q", "--detach", head], check=True)
